@@ -22,4 +22,14 @@ PROPS = {
   "level_note": "Trusted: Lean kernel; extractor; harness+driver; strconv/context/time as modelled. Transit time is measured, not proved.",
   "assumptions": ["durations are int64 nanoseconds; the clock is monotone between two readings"],
  },
+ "C07": {
+  "fact_files": ["httpgrpc/io.go", "httpgrpc/client.go", "httpgrpc/server.go"],
+  "trusted_base": ["encoding/binary big-endian int32, io.ReadAtLeast/ReadFull as modelled by Framing.readFull/readSize",
+                   "protobuf Unmarshal of payloads is an external: its answers are passed to the model on the op line (pm=/tr= maps)",
+                   "runtime.MemStats.TotalAlloc as the allocation observer in the harness oracle"],
+  "partial": [],
+  "level_text": "Proof: Lean theorems over the Framing model, for arbitrary byte strings and message lists of any length: the decode loop is total and fuel-independent (no panic outcome); every allocation of the client loop and of the server RecvMsg is <= the per-message limit (also for 0x80000000, 0x7fffffff, 0xffffffff prefixes); delivered messages re-framed are a prefix of the input (nothing fabricated); encode/decode round trip; a response cut at ANY offset before the end of the trailer frame yields an error outcome and an intact prefix of the messages; the server rejects a second request frame. maxMessageSize and the guarded allocation sites are regenerated from source on every run. Tie: differential run of the real client decoder (replaying RoundTripper) and server decoder (crafted request bodies) against the model on encodings, every truncation offset, hostile prefixes and random bytes, clean and abrupt endings.",
+  "level_note": "Trusted: Lean kernel; extractor; harness+driver; encoding/binary, io, protobuf Unmarshal (external parameter).",
+  "assumptions": ["the reader is a finite byte string followed by io.EOF (clean) or a transport error (abrupt)"],
+ },
 }
